@@ -4,18 +4,21 @@
 //! Argument layout of every case (see coq/C05/Run.v):
 //!   a[0] = [cfg_id, kind], a[1] = [p], a[2] = [coeff a], a[3] = [coeff b | d],
 //!   a[4] = [r, MODULUS_BIT_SIZE, N], a[5] = op parameters, a[6] = scalars, a[7] = bases (flat affine).
+//! Pairing target groups (`PairingOutput<E>`, kind 2 = Fp12, kind 3 = Fp4): a[2] = [nr2], a[3] = [nr6 c0, c1],
+//!   a[7] = bases, `extension_degree` base-prime-field coordinates per element; result = coordinates of one element.
 //! Only a[0], a[5..] are used here; a[1..4] describe the configuration to the Coq model and are
 //! compared with the real constants by the `params` op.  No oracle logic: each op calls the API
 //! and prints the returned group element in affine coordinates.
 #![allow(non_camel_case_types)]
 use ark_ec::{
     models::CurveConfig,
+    pairing::{Pairing, PairingOutput},
     scalar_mul::variable_base::{verif_hooks, ChunkedPippenger, HashMapPippenger},
     short_weierstrass::{self as sw, SWCurveConfig},
     twisted_edwards::{self as te, TECurveConfig},
-    CurveGroup, ScalarMul, VariableBaseMSM,
+    CurveGroup, PrimeGroup, ScalarMul, VariableBaseMSM,
 };
-use ark_ff::{BigInt, BigInteger, PrimeField};
+use ark_ff::{BigInt, BigInteger, CyclotomicMultSubgroup, Field, PrimeField, Zero};
 use num_bigint::BigUint;
 use vharness::*;
 
@@ -279,6 +282,43 @@ where
     })
 }
 
+/// base-prime-field coordinates of an extension-field element
+fn coords<F: Field>(x: &F) -> Arg {
+    x.to_base_prime_field_elements().map(|c| fe_out(&c)).collect()
+}
+
+/// the pairing target group `PairingOutput<E>` (MulBase = Self; zero = 1, + = field product)
+fn run_gt<E: Pairing>(op: &str, a: &[Arg]) -> Vec<Arg> {
+    type Tf<E> = <E as Pairing>::TargetField;
+    type Bp<E> = <Tf<E> as Field>::BasePrimeField;
+    let d = <Tf<E> as Field>::extension_degree() as usize;
+    if op == "params" {
+        let unit = |i: usize| -> Tf<E> {
+            let mut c = vec![<Bp<E> as Zero>::zero(); d];
+            c[i] = <Bp<E> as Field>::ONE;
+            <Tf<E> as Field>::from_base_prime_field_elems(c).unwrap()
+        };
+        let (uu, v, w) = (unit(1), unit(2), unit(d / 2));
+        let g = <PairingOutput<E> as PrimeGroup>::generator();
+        return ok(vec![
+            vec![modulus::<Bp<E>>()],
+            coords(&(uu * uu)),
+            coords(&(v * v)),
+            coords(&(v * v * v)),
+            coords(&(w * w)),
+            scalar_params::<E::ScalarField>(),
+            vec![from_bool(<PairingOutput<E> as ScalarMul>::NEGATION_IS_CHEAP)],
+            coords(&g.0),
+            coords(&(g.0 * g.0.cyclotomic_inverse().unwrap())),
+        ]);
+    }
+    let bases: Vec<PairingOutput<E>> = a[7]
+        .chunks(d)
+        .map(|c| PairingOutput::<E>(<Tf<E> as Field>::from_base_prime_field_elems(c.iter().map(fe::<Bp<E>>)).unwrap()))
+        .collect();
+    run_group::<PairingOutput<E>>(op, a, bases, &|g| ok(vec![coords(&g.0)]))
+}
+
 fn run(op: &str, a: &[Arg]) -> Vec<Arg> {
     if op == "make_digits" {
         return run_digits(a);
@@ -292,6 +332,9 @@ fn run(op: &str, a: &[Arg]) -> Vec<Arg> {
         10 => run_sw::<ark_test_curves::bls12_381::g1::Config>(op, a),
         11 => run_te::<ark_test_curves::ed_on_bls12_381::EdwardsConfig>(op, a),
         12 => run_sw::<ark_test_curves::secp256k1::Config>(op, a),
+        20 => run_gt::<ark_test_curves::bls12_381::Bls12_381>(op, a),
+        21 => run_gt::<ark_bls12_381::Bls12_381>(op, a),
+        22 => run_gt::<ark_mnt4_298::MNT4_298>(op, a),
         _ => unsupported(),
     }
 }
